@@ -291,6 +291,7 @@ def render_objlib(m, rng=None):
         h.append('GType %s_get_type (void);' % us)
         if b['decl'] != 'none':
             h.append('%s *%s_copy (%s *self);' % (nm, us, nm))
+            h.append('%s *%s_new (gint a);' % (nm, us))         # a constructor of a registered record/union
         d.append('  <boxed name=%s get-type=%s/>' % (quoteattr(nm), quoteattr(us + '_get_type')))
     for e in m['enums']:
         nm = e['name']
